@@ -726,7 +726,8 @@ func (m *monHostile) AtEnd(f *Fleet) {
 	newest := f.NewestDecodableByInstance(cache)
 	if why := f.PremiseWith(newest); why != "" {
 		for k := range f.RaceKeys {
-			if strings.Contains(why, strings.SplitN(k, "/", 2)[1]) {
+			parts := strings.SplitN(k, "/", 3) // node/dbi/key
+			if strings.Contains(why, fmt.Sprintf("%s/%q", parts[1], parts[2])) {
 				f.Sim.Probe("c08-premise-blocked-by-known-race")
 				return
 			}
